@@ -1,4 +1,5 @@
 import XixiKV.Proofs.EngineRestart
+import XixiKV.Proofs.ZeroExt
 /-!
 # C03 — crash recovery, and the atomicity part of C04
 
@@ -68,7 +69,7 @@ theorem C03_open_crash (s : St) (dir : String) (cfg : Cfg) (d : DirSt)
       sorted := replay_sorted _
       counters := replay_counters _
       nobatch := rfl }
-  · rw [World.get_set_ne _ _ _ _ (mergeDirName_ne _)]; exact hnomerge
+  · rw [World.get_set_ne _ _ _ _ (Restart.mergeDirName_ne _)]; exact hnomerge
 
 /-- **C03, what survives** — for the `j` of `C03_open_crash` (characterised by: the first `j`
     records fit into the `n` surviving bytes, the first `j+1` do not):
@@ -342,6 +343,33 @@ example : ∃ g' s' db',
       exact ⟨0, Nat.le_refl _, Nat.zero_le _, rfl⟩)
     (by simp [db, World.get, mergeDirName]) (by decide)
   exact ⟨g', s', db', hopen, hinv', hpre⟩
+
+/-! ## memory-mapped I/O: the process dies without `Close`
+
+Under `FileIOType = MemoryMap` every data file — the active one and, after rotations, the older ones
+— is physically extended with zeros while it is open (`Model/Fio.lean`); a process death leaves
+them that way.  (Power loss under mmap, a cut INSIDE a record followed by zeros, is the recorded
+finding `mmap-powerloss-cut-inside-record`.) -/
+
+/-- **C03, mmap, process death.**  A directory whose data files are the ghost files, each followed by
+    an arbitrary number of zero bytes (`MatchesZ`): `Open` succeeds under any valid configuration,
+    recovers EVERY record (the handle is the one a scan of the exact files builds), cuts the files
+    back to their logical bytes, and the engine invariant holds again. -/
+theorem C03_mmap_process_death (s : St) (dir : String) (cfg : Cfg) (d : DirSt) (g : GDir) (a : Nat)
+    (hdb : s.db = none) (hcfg : cfg.Valid) (hd : s.world.get dir = some d)
+    (hl : d.locked = false) (hm : Adopt.plan s.world dir = none) (hmt : MatchesZ d.data g)
+    (hasc : AscIds g) (hrecs : ∀ x ∈ g, ∀ r ∈ x.2, RecOK r) (hact : (g.getLast?).map (·.1) = some a) :
+    (openDB s dir cfg).2 = .ok ∧ (openDB s dir cfg).1.db = some (MergeP.scanDB cfg dir a g) ∧
+      Inv (openDB s dir cfg).1 (MergeP.scanDB cfg dir a g) g :=
+  Inv_openDB_zero_ext s dir cfg d g a hdb hcfg hd hl hm hmt hasc hrecs hact
+
+/-- the sequential reader on a zero-extended well-formed file, either reader mode: exactly the
+    records, `validEnd` = the logical size -/
+theorem C03_scan_zero_extended (tol : Bool) (fid : Nat) (ds : List ByteArray) (hpos : ∀ d ∈ ds, 0 < d.size) (k : Nat) :
+    scan C tol fid (appendAll C ByteArray.empty ds ++ zeros k)
+      = { recs := ds.zip (posAll C fid ByteArray.empty ds),
+          validEnd := (appendAll C ByteArray.empty ds).size, ok := true } :=
+  scan_zero_ext tol fid ds hpos k
 
 end XixiKV.C03
 
